@@ -64,6 +64,11 @@ def pointer_role(v):
     return 'mapping'
 
 
+def _is_reader_open(x):
+    from . import startup_model
+    return startup_model.is_reader_new(x)
+
+
 def pointer_roles(fb):
     """{field name of ShmWriter / ShmReader (or of a struct nested in them): role}, read off the values the two
     constructors return; so that `self.<field>` in write()/snapshot() is classified by what the constructor put there"""
@@ -71,6 +76,8 @@ def pointer_roles(fb):
         return ROLES
     _ROLES_FOR[0] = fb
     ROLES.clear()
+    from . import startup_model
+    startup_model.init_reader_open(fb)
     names = common.abi_names(fb)['hdr']
     HDR_NAME_TO_ROLE.clear()
     HDR_NAME_TO_ROLE.update({names['generation']: 'generation', names['version']: 'version'})
@@ -80,7 +87,7 @@ def pointer_roles(fb):
             if not (b.name == 'new' and (b.impl_self or '').endswith(side) and b.defkind != 'Closure'):
                 continue
             eng = common.mk_engine(fb, inline_depth=8, loop_unroll=8, no_inline=(
-                (lambda x: x.name == 'new' and (x.impl_self or '').endswith('ShmReader')) if side == 'ShmWriter' else None))
+                _is_reader_open if side == 'ShmWriter' else None))
             for p in eng.run(b):
                 if not (p.kind == 'return' and p.value[0] == 'agg' and p.value[2] == 'Ok' and p.value[3]):
                     continue
